@@ -72,7 +72,8 @@ CheckReq(c, o) ==
 \* c = [limit, declared, status]; o = [status, cl (received Content-Length or -1), hdr]
 CheckHead(c, o) ==
   (IF o.status # c.status THEN <<"Head_Status">> ELSE <<>>)
-  \o (IF o.cl # c.declared THEN <<"Head_ContentLength">> ELSE <<>>)
+  \* (net/http itself drops Content-Length from a 304, so the header is compared for HEAD only)
+  \o (IF c.method = "HEAD" /\ o.cl # c.declared THEN <<"Head_ContentLength">> ELSE <<>>)
   \o (IF ~o.hdr THEN <<"Head_Header">> ELSE <<>>)
 
 SeqsUpTo(S, n) == UNION {[1..k -> S] : k \in 0..n}
@@ -81,6 +82,9 @@ Positions == {"alone", "inner", "outer"}
 RespCases(maxL, n) == UNION {{[kind |-> "resp", limit |-> L, ops |-> s, pos |-> p] : s \in {x \in SeqsUpTo(Ops(L), n) : WellFormed(x)}, p \in Positions} : L \in 1..maxL}
 ReqCases(maxL) == {[kind |-> "req", limit |-> L, size |-> z, framing |-> f, pos |-> p] :
                      L \in 1..maxL, z \in {0, 1, 2, 3, 4, 5, 6, 40, 400}, f \in {"cl", "chunked"}, p \in Positions}
-HeadCases(maxL) == {[kind |-> "head", limit |-> L, declared |-> d, status |-> st, pos |-> p] :
+\* method GET with status 304: Not Modified may carry the length of the representation it stands for (a proxy copies it)
+HeadCases(maxL) == {[kind |-> "head", limit |-> L, declared |-> d, status |-> st, method |-> "HEAD", pos |-> p] :
                       L \in 1..maxL, d \in {0, 1, 2, 3, 4, 5, 400, 70000}, st \in {200, 404}, p \in Positions}
+                   \cup {[kind |-> "head", limit |-> L, declared |-> d, status |-> 304, method |-> "GET", pos |-> p] :
+                      L \in 1..maxL, d \in {1, 2, 5, 400, 70000}, p \in Positions}
 =============================================================================
